@@ -408,12 +408,32 @@ func genIncludeName(repo string, jc map[string]string) string {
 type invItem struct{ kind, pkg, fn, detail string }
 
 func genInventory(repo string) string {
-	pkgDirs := []string{"catalog", "catalog/ser/openapi", "core", "directive", "jerr", "kit", "notation", "scanner"}
 	cwd, _ := os.Getwd()
 	if err := os.Chdir(repo); err != nil {
 		panic(failure{err.Error()})
 	}
 	defer func() { _ = os.Chdir(cwd) }()
+	// every non-test, non-internal package of the module, as the go tool lists them
+	var pkgDirs []string
+	lc := exec.Command("go", "list", "-f", "{{.ImportPath}}", "./...")
+	lc.Stderr = os.Stderr
+	lout, lerr := lc.Output()
+	if lerr != nil {
+		panic(failure{"go list failed: " + lerr.Error()})
+	}
+	for _, l := range strings.Split(string(lout), "\n") {
+		l = strings.TrimSpace(l)
+		const mod = "github.com/jsightapi/jsight-api-core/"
+		if !strings.HasPrefix(l, mod) {
+			continue
+		}
+		d := strings.TrimPrefix(l, mod)
+		if d == "test" || strings.HasPrefix(d, "internal/") {
+			continue
+		}
+		pkgDirs = append(pkgDirs, d)
+	}
+	sort.Strings(pkgDirs)
 	// export data of every dependency, produced by the go tool from the working tree
 	exports := map[string]string{}
 	cmd := exec.Command("go", "list", "-export", "-deps", "-f", "{{.ImportPath}} {{.Export}}", "./...")
@@ -455,6 +475,23 @@ func genInventory(repo string) string {
 		}
 		if err != nil {
 			panic(failure{"type-check of " + pd + " failed: " + err.Error()})
+		}
+		// imports of packages that carry time, randomness, addresses or scheduling
+		watch := map[string]bool{"time": true, "math/rand": true, "math/rand/v2": true, "crypto/rand": true, "unsafe": true,
+			"runtime": true, "reflect": true, "sync/atomic": true, "os/signal": true, "context": true}
+		for _, n := range names {
+			for _, im := range files[n].Imports {
+				ip := strings.Trim(im.Path.Value, "\"")
+				if watch[ip] {
+					items = append(items, invItem{"import", pd, filepath.Base(n), ip})
+				}
+			}
+			ast.Inspect(files[n], func(m ast.Node) bool {
+				if bl, ok := m.(*ast.BasicLit); ok && bl.Kind == token.STRING && strings.Contains(bl.Value, "%p") {
+					items = append(items, invItem{"fmt-pointer", pd, filepath.Base(n), bl.Value})
+				}
+				return true
+			})
 		}
 		// package-level variables
 		pkgVars := map[types.Object]string{}
